@@ -4,7 +4,7 @@ directory) and writes /verif/seeded/matrix.json: which checks alarm on which cha
 import json, os, subprocess, sys, concurrent.futures as cf
 V = '/verif'
 props = [c['property_id'] for c in json.load(open(f'{V}/MANIFEST.json'))['checks']]
-ROOTS = {'': '/tmp/seed', 'b': '/tmp/seed2', 'c': '/tmp/seed3', 'd': '/tmp/seed4', 'e': '/tmp/seed5', 'f': '/tmp/seed6', 'g': '/tmp/seed7', 'h': '/tmp/seed8', 'i': '/tmp/seed9', 'j': '/tmp/seed10', 'k': '/tmp/seed11'}   # round suffix -> worktree root
+ROOTS = {'': '/tmp/seed', 'b': '/tmp/seed2', 'c': '/tmp/seed3', 'd': '/tmp/seed4', 'e': '/tmp/seed5', 'f': '/tmp/seed6', 'g': '/tmp/seed7', 'h': '/tmp/seed8', 'i': '/tmp/seed9', 'j': '/tmp/seed10', 'k': '/tmp/seed11', 'l': '/tmp/seed12'}   # round suffix -> worktree root
 def wt_of(seed):
     return f"{ROOTS[seed[3:]]}/{seed[:3]}"
 seeds = sorted(d + suf for suf, root in ROOTS.items() if os.path.isdir(root)
